@@ -100,9 +100,20 @@ func Harness_C06_C04_decoration() {
 		runtime.Gosched()
 	}
 	c.barrier()
+	// the child of each trace is an ordinary span, a span event or a span link: events and links
+	// count as descendants (meta.event_count, and meta.span_count when only AddSpanCountToRoot is
+	// on) but not as spans when AddCountsToRoot breaks the counts down
+	childKind := zz.Choose("childKind", 3)
 	mk := func(tid string, root bool) *types.Span {
 		ev := &types.Event{APIKey: "k", Dataset: "d", Environment: "env", SampleRate: 1, Data: types.NewPayload(cfg, map[string]any{"f": int64(1)})}
+		if !root {
+			ev.Data.MetaAnnotationType = []string{"", "span_event", "link"}[childKind]
+		}
 		return &types.Span{Event: ev, TraceID: tid, IsRoot: root}
+	}
+	nonSpans := int64(0)
+	if childKind != 0 {
+		nonSpans = 1
 	}
 	check := func(sp *types.Span, k int, isRoot bool, wantCount int64, late bool) {
 		hostSet := sp.Data.Get(types.MetaRefineryLocalHostname) != nil
@@ -125,11 +136,26 @@ func Harness_C06_C04_decoration() {
 			} else {
 				zz.Observe("spanCountMissing", wantCount)
 			}
-			if zz.Or(opt[k].counts, opt[k].spanCount) {
-				zz.Assert(sc == any(wantCount), "[C06] root carries the span count as of the decision (or of its own late arrival)")
-				if opt[k].counts {
-					zz.Assert(sp.Data.Get(types.MetaEventCount) == any(wantCount), "[C06] root carries the event count too when AddCountsToRoot is in force")
+			if opt[k].counts {
+				zz.Assert(sc == any(wantCount-nonSpans), "[C06] root carries the number of spans as of the decision (or of its own late arrival)")
+				zz.Assert(sp.Data.Get(types.MetaEventCount) == any(wantCount), "[C06] root carries the event count too when AddCountsToRoot is in force")
+				ne, nl := int64(0), int64(0)
+				if childKind == 1 {
+					ne = 1
 				}
+				if childKind == 2 {
+					nl = 1
+				}
+				// a zero count reads back as absent
+				cnt := func(v any) int64 {
+					if n, ok := v.(int64); ok {
+						return n
+					}
+					return 0
+				}
+				zz.Assert(zz.And(cnt(sp.Data.Get(types.MetaSpanEventCount)) == ne, cnt(sp.Data.Get(types.MetaSpanLinkCount)) == nl), "[C06] span events and links are counted by kind")
+			} else if opt[k].spanCount {
+				zz.Assert(sc == any(wantCount), "[C06] root carries the span count as of the decision (or of its own late arrival)")
 			} else {
 				zz.Assert(sc == nil, "[C06] no counts on the root when neither count option is in force")
 			}
